@@ -748,10 +748,9 @@ class Index:
             for s_ in e0["stmts"]:
                 out.extend(self.stmt_guards(s_))
             return out
-        # `expr?` statements (and lets initialised by them): the call succeeded
-        for x, _ in H.walk(e):
-            if x.get("k") == "Closure":
-                continue
+        # `expr?` statements (and lets initialised by them): the call succeeded — only a `?` that is evaluated whenever
+        # the statement is (not one inside a branch, a loop body, a closure or the right operand of && / ||)
+        for x in self.unconditional_nodes(e):
             if x.get("k") == "Try":
                 inner = peel(x["e"])
                 if inner.get("k") == "MethodCall" and inner["name"] in ("ok_or", "ok_or_else") and len(inner["args"]) == 1:
@@ -1268,6 +1267,33 @@ class Index:
             elif anc.get("k") == "Closure":
                 break
             child = anc
+        return out
+
+    def unconditional_nodes(self, n):
+        out = []
+        stack = [n]
+        while stack:
+            x = stack.pop()
+            k = x.get("k")
+            out.append(x)
+            if k in ("Closure",):
+                continue
+            if k == "If":
+                stack.append(x["cond"])
+                continue
+            if k in ("Match",):
+                stack.append(x["scrut"])
+                continue
+            if k in ("While", "For", "Loop"):
+                if k == "For":
+                    stack.append(x["iter"])
+                continue
+            if k == "Binary" and x["op"] in ("&&", "||"):
+                stack.append(x["l"])
+                continue
+            for _, c in H.children(x):
+                stack.append(c)
+        out.sort(key=lambda y: (y.get("sp") or [0])[0])
         return out
 
     def unconditional_calls(self, n):
